@@ -448,6 +448,7 @@ class EngineWorld:
         self.publish_hooks: list = []
         self.tick_hooks: list = []
         self.stable_checks: list = []
+        self.quiescent_hooks: list = []
         self.states: set = set()
         self.wait_calls: list[dict] = []
         self.parent_of: dict[int, Any] = {}
@@ -832,6 +833,8 @@ async def drive_standard(world: EngineWorld, spec: dict, *, extra=None) -> dict:
         done, _ = await asyncio.wait({q, handler._result_task}, return_when=asyncio.FIRST_COMPLETED)
         if not handler.is_done():
             world.trace.log("quiescent", phase="pre-fin")
+            for h in world.quiescent_hooks:
+                h(handler)
             outcome["quiesced"] = True
             fin = EV.Fin(uid=world.uid())
             world.trace.log("emit", uid=fin.uid, ev="Fin", by="ext", via="ext", target=None, parent=-1, inv=0)
